@@ -180,6 +180,11 @@ def replay(payload):
             tried.append(inp)
             if bad:
                 return {'reproduced': True, 'detail': bad, 'input': inp}
+        # the counter-model's sizes were not constructible as such: search the enumerated neighbourhood
+        r = bounded_get_time_series('quick', 0)
+        if r.failures:
+            return {'reproduced': True, 'detail': r.failures[0]['detail'], 'input': r.failures[0]['input'],
+                    'note': 'counter-model input passed natively; failing input found by the bounded search'}
         return {'reproduced': False, 'detail': 'counter-model input passes natively', 'input': tried}
     if 'CreateCsvString' in ob or 'GenerateCSVtext' in ob:
         r = bounded_csv('quick', 0)
